@@ -173,6 +173,49 @@ def judge_ident(ctx, spelling, name, ns, cname, cterm):
              keys=keys, cls="ident", sig=["ident", out[0], bool(keys)])
 
 
+def identifier_codepoint_sweep(ctx, batch):
+    """Every code point an identifier may contain (whatever `\\w` accepts, ~140000), in the
+    middle, at the end and in a namespace part of an identifier, `batch` identifiers per parse as
+    arguments of one custom call: each comes back as ONE field reference with its spelling
+    unchanged.  A failing batch is bisected."""
+    import re as _re
+    wordy = [c for c in range(0x80, 0x110000) if _re.fullmatch(r"\w", chr(c))]
+    shapes = [lambda ch: "a%sb" % ch, lambda ch: "q%s" % ch, lambda ch: "n%s.f" % ch]
+
+    def problem(names):
+        text = "my.f(" + ", ".join(names) + ")"
+        out = drive.parse_term(text)
+        if out[0] != "ok":
+            return "rejected: %s" % (out[1],)
+        want = ("call", "my.f", tuple(("id", n.split(".")[-1], tuple(n.split(".")[:-1])) for n in names))
+        return None if out[1] == want else "different tree"
+    j = 0
+    for si, shape in enumerate(shapes):
+        for k in range(0, len(wordy), batch):
+            j += 1
+            if not ctx.mine(j):
+                continue
+            names = [shape(chr(c)) for c in wordy[k:k + batch]]
+            ctx.count("evaluations")
+            ctx.count("identifier_codepoints_swept", len(names))
+            ctx.cls("identifier-codepoint-sweep")
+            why = problem(names)
+            if why is None:
+                continue
+            while len(names) > 1:
+                h = len(names) // 2
+                if problem(names[:h]):
+                    names = names[:h]
+                elif problem(names[h:]):
+                    names = names[h:]
+                else:
+                    break
+            ctx.fail({"identifier": names[0], "context": "custom-call-argument", "text": "my.f(%s)" % names[0],
+                      "codepoints": ["U+%04X" % ord(c) for c in names[0] if ord(c) > 127]},
+                     "identifier is not a single field reference with its spelling", observed=problem(names[:1]) or why,
+                     cls="ident", sig=["ident-sweep", si])
+
+
 def run(ctx):
     contracts.install_parse()
     rng = ctx.rng("lits")
@@ -228,6 +271,7 @@ def run(ctx):
             judge_ident(ctx, spelling, name, ns, cname, ID_CONTEXTS[cname])
         if i == 3:
             ctx.sample({"identifier": spelling, "name": name, "namespace": ns})
+    identifier_codepoint_sweep(ctx, ctx.pick(400, 100))
     # the keyword-containing identifiers named in the property, in every context
     if ctx.shard == 0:
         for nm in L.KW_IDENTS:
